@@ -7,6 +7,7 @@
    the real binary through pipes for those (C20 partial for the runtime). *)
 From Ais Require Import Model.Base Model.Messages Model.Sentence Spec.Grammar Proofs.SentenceLemmas Proofs.Reassembly
   Proofs.Histories Proofs.Total Proofs.CliProof.
+From Ais Require Import Spec.Transmit Proofs.Transmit Proofs.TransmitCli.
 From Coq Require Import Lia.
 Local Open Scope N_scope.
 
@@ -44,6 +45,27 @@ Theorem C20_rejected_line_is_local :
   forall q st line, ~ WellFormed Std line -> fst (step Std q st line true) = st.
 Proof. intros q st line H. exact (proj1 (step_not_wellformed Std q st line true H)). Qed.
 Print Assumptions C20_rejected_line_is_local.
+
+(* the tool on a transmitted stream (Spec/Transmit.v: a message bit string armoured, cut into 2..255 fragments
+   anywhere, framed with checksums, one sentence per line): nothing is printed for the fragments that are
+   waiting, and the last line produces exactly one record — on standard output, carrying the decoding of the
+   message bits (or, if they do not decode, that line's error record on standard error) *)
+Theorem C20_transmitted_group :
+  forall q id chan (bits : list bool) parts,
+    List.concat parts = armored_payload bits ->
+    group_ok Std id chan parts (N.of_nat (fill_of bits)) ->
+    (2 <= List.length parts <= 255)%nat -> chan <> 10 ->
+    let lines := transmit id chan parts (N.of_nat (fill_of bits)) in
+    exists k,
+      cli q (flat_map (fun ln => ln ++ [10]) lines) =
+      map (fun _ => RecNone) (removelast lines) ++
+      [match parse_bits Std q (bits ++ repeat false k) with
+       | Ok m => RecOut (last lines []) (Some m)
+       | Err e => RecErr (last lines []) e
+       | Panic p => RecPanic p
+       end].
+Proof. exact cli_on_transmitted_group. Qed.
+Print Assumptions C20_transmitted_group.
 
 Example C20_nonvacuous :
   cli quirks_asis [120; 10; 255; 254; 10; 10] = [RecErr [120] ENmea; RecErr [255; 254] ENmea; RecErr [] ENmea].
